@@ -48,7 +48,7 @@ def main(inp, outp):
         want = {
             "norad_id": f["norad"],
             "cospar_id": "" if f["desig"] == 0 else f"{f['dyy'] + (1900 if f['dyy'] >= 57 else 2000)}-{f['dlaunch']:03d}{PIECES[f['desig']]}",
-            "element_nb": f["elnb"], "revolutions": f["rev"],
+            "element_nb": f["elnb"], "revolutions": f["rev"], "classification": "UCS"[f.get("cls", 1) - 1],
         }
         for k, w in want.items():
             key = "tle/element-number" if k == "element_nb" else f"tle/field-{k}"
